@@ -144,3 +144,21 @@ pub fn table_case(i: usize) -> Option<E> {
     None
 }
 pub fn table_len() -> usize { let n = operand_pool().len(); 17 * n * n + 17 * n + 17 * n * 3 }
+
+/// a tree nested to exactly `depth` levels along one spine (ill-formed operators allowed), small random siblings
+pub fn gen_deep_tree(r: &mut Rng, depth: u32) -> E {
+    if depth == 0 { return gen_tree(r, 0, true); }
+    let inner = gen_deep_tree(r, depth - 1);
+    let side = |r: &mut Rng| gen_tree(r, 1, true);
+    match r.below(9) {
+        0 => E::Unary { right: bx(inner), operator: *r.pick(&OPS) },
+        1 => E::Binary { left: bx(inner), right: bx(side(r)), operator: *r.pick(&OPS) },
+        2 => E::Binary { left: bx(side(r)), right: bx(inner), operator: *r.pick(&OPS) },
+        3 => E::Ternary { left: bx(inner), middle: bx(side(r)), right: bx(side(r)), operator: if r.chance(3, 4) { O::TernaryCondition } else { *r.pick(&OPS) } },
+        4 => E::Ternary { left: bx(side(r)), middle: bx(inner), right: bx(side(r)), operator: O::TernaryCondition },
+        5 => E::Ternary { left: bx(side(r)), middle: bx(side(r)), right: bx(inner), operator: O::TernaryCondition },
+        6 => E::Array { expressions: vec![side(r), inner] },
+        7 => E::Call { name: "if_then".into(), params: vec![side(r), inner, side(r)] },
+        _ => E::Call { name: { let n = *r.pick(FN_NAMES); n.to_string() }, params: vec![inner] },
+    }
+}
